@@ -5,24 +5,26 @@ _ANCHORS = ["src/hgraph/types/metadata/ts_data_slot_ops.cpp", "src/hgraph/types/
             "src/hgraph/types/time_series/ts_output/set_view.cpp", "src/hgraph/types/time_series/ts_output/dict_view.cpp",
             "src/hgraph/types/utils/stable_slot_store.cpp", "src/hgraph/types/utils/slot_observer.cpp",
             "src/hgraph/types/time_series/ts_delta.cpp", "src/hgraph/types/time_series/ts_data/base_view.cpp"]
-_REACH = ["end", "shape_tss", "shape_tsd", "shape_tsl", "shape_tsb", "shape_tsw", "shape_tsd_tss", "shape_tss_onekey", "shape_tsd_onekey",
+_REACH = ["end", "shape_tss", "shape_tsd", "shape_tsl", "shape_tsb", "shape_tsw", "shape_tsd_tss", "shape_tss_onekey", "shape_tsd_onekey", "shape_tsw_time", "time_window_expired_some_not_all", "time_window_grows_while_wrapped",
           "add_remove_add_same_key_one_cycle", "remove_add_remove_same_key_one_cycle", "key_reinserted_after_write_same_cycle", "key_erased", "nested_remove",
           "key_recreated_in_later_cycle", "idle_cycle", "added_and_removed_same_cycle",
           "removed_and_readded_same_cycle", "element_only_write", "key_created_without_value", "element_invalidated", "list_grew",
           "element_written_twice_in_cycle", "whole_value_write", "window_cleared", "window_rolled", "min_period_above_one"]
-_OUTSIDE = ("more cycles / mutations per cycle; element types other than int; duration-based windows; nested collection values other than TSD<int,TSS<int>>; "
+_OUTSIDE = ("more cycles / mutations per cycle; element types other than int; duration windows with a min_time_range, clear() on duration windows, more than NCYC_TW pushes; nested collection values other than TSD<int,TSS<int>>; "
             "REF and forwarding outputs; whole-value replacement of TSS/TSD (copy_value_from)")
 
 reg("C05",
     name="C05_delta", src="harness/C05_delta.cpp",
     anchor_files=_ANCHORS,
     quick=dict(defs=dict(NCYC=2, NOPS=2, NK=2, RAMP=0, TSS_LAST=1), symx=dict(shards=16, **{"max-wall": 900})),
-    thorough=dict(defs=dict(NCYC=3, NCYC_TSS=3, NCYC_TSD=3, BIG_LAST=1, MID5=2, NOPS=2, NK=2, RAMP=9), symx=dict(shards=16, **{"max-wall": 3000, "shard-depth": 8})),
+    thorough=dict(defs=dict(NCYC=3, NCYC_TSS=3, NCYC_TSD=3, BIG_LAST=1, MID5=2, NOPS=2, NK=2, RAMP=9, NCYC_TW=7), symx=dict(shards=16, **{"max-wall": 3000, "shard-depth": 8})),
     reach=_REACH,
     bounds="unit level, no graph: one real TSOutput of each shape in {TSS<int>, TSD<int,TS<int>>, dynamic TSL<TS<int>>, TSB{a,b}, TSW<int,N,min> with N in 1..3 and "
            "min in 1..N, TSD<int,TSS<int>> (3 cycles of NOPS, MID5, 1 operations from {add (k,e) creating k, remove (k,e), erase k, clear}, elements {0,1}), "
            "TSS<int> and TSD<int,TS<int>> over ONE key with a one-operation prefix cycle followed by NPRIM=3 primitives on that key in one cycle "
-           "(add-remove-add on an absent key, remove-add-remove on a present key, set-erase-set, ...)} (enumerated) observed through the producer view, a bound TSInput consumer, delta_value() and capture_delta(); NCYC cycles (TSS: NCYC_TSS with TSS_LAST mutations in the last one, "
+           "(add-remove-add on an absent key, remove-add-remove on a present key, set-erase-set, ...), "
+           "a duration-based TSW<int, range 10us> with NCYC_TW=6 pushes (one per cycle) at symbolic gaps in [1,TW_GMAX=12] us: every expiry pattern, incl. the 4-slot "
+           "ring wrapping and then growing} (enumerated) observed through the producer view, a bound TSInput consumer, delta_value() and capture_delta(); NCYC cycles (TSS: NCYC_TSS with TSS_LAST mutations in the last one, "
            "TSD: NCYC_TSD with BIG_LAST in the last one, TSW: 2*NCYC with one mutation scope per cycle) of NOPS mutations each, enumerated from {nothing, add/remove/clear (TSS), set/erase/clear/"
            "element write/create without value/element invalidate (TSD), element write with growth/whole-value write (TSL, TSB), push/clear/clear+push (TSW)}; "
            "keys from {0..NK-1} (thorough: after a concrete ramp of RAMP further keys inserted in a first cycle, crossing the slot-store growth boundaries); base time, "
@@ -30,7 +32,9 @@ reg("C05",
     outside=_OUTSIDE,
     assumptions=["evaluation times are supplied by the harness in strictly increasing order, one mutation batch per time, as the evaluation engine does",
                  "for TSW the harness uses one mutation scope per cycle (the runtime rejects a second push / clear at the same evaluation time by exception) and "
-                 "does not call capture_delta on ticks in which clear() participated (documented as unrepresentable)"],
+                 "does not call capture_delta on ticks in which clear() participated (documented as unrepresentable)",
+                 "duration windows need no evaluation clock at this level: TSWDataMutationView::push prunes relative to the mutation time passed to begin_mutation, "
+                 "which the harness supplies (strictly increasing, symbolic gaps)"],
     )
 reg("C05",
     name="C05_delta_deep", src="harness/C05_delta.cpp", tiers=("thorough",),
